@@ -183,7 +183,10 @@ COQ_TYPE = {"nat": "nat", "byte": "N", "lane": "N", "Z": "Z", "bool": "bool", "t
             "cmdidx": "nat", "ringref": "nat", "cmdptr": "option nat", "cmdrecopt": "option cmd",
             "str": "list N", "vtype": "vtype", "ask": "option (oreq * state)",
             "i64": "Z", "u64": "N", "hcall": "hcall",
-            "bufptr": "option bufptr", "strptr": "option strptr", "varidx": "nat"}
+            "bufptr": "option bufptr", "strptr": "option strptr", "varidx": "nat",
+            "wbufc": "wbuf", "wbufu": "wbuf"}
+#   wbufc / wbufu (a `const char *` PARAMETER of an auxiliary function that is only stored into
+#   self->write_buf / self->unsolicited_fsm.write_buf: Defs.wbuf, see POINTER STORES)
 #   bufptr (a `char *` into desc->buf / desc->unsolicited_buf: option (which array, offset), NULL =
 #   None)  strptr (a `const char *` into a string literal: option (bytes of the literal, offset))
 #   varidx (self->var: the index of the variable among those of the current command)
@@ -654,6 +657,12 @@ HANDLER_CALL_FIELDS = {"write": "HC_write", "run": "HC_run", "read": "HC_read", 
 #        f(self[, FSM]); break;                                  DCallOnly (H_f [FSM])   (s unchanged)
 #        s = CAT_STATUS_ERROR_UNKNOWN_STATE; break;              DUnknown
 #        break;                                                  DNothing
+# the status that stands for "no arm assigned it" in the model's reading of the table (HandlerTie.v.in,
+# run_dispatch s0): cat_service declares its status variable without initialiser and every arm assigns it
+# (an arm that does not would be DNothing / DCallOnly, which the expected table does not contain);
+# unsolicited_events_service initialises it with CAT_STATUS_OK -- checked when an entry depends on it
+DISPATCH_S0 = {"cat_service": "CAT_STATUS_ERROR_UNKNOWN_STATE", "unsolicited_events_service": "CAT_STATUS_OK"}
+DISPATCH_S0_NEEDS_INIT = {"cat_service": False, "unsolicited_events_service": True}
 DISPATCH_FUNCTIONS = {          # C function: (field the switch ranges over, Coq type of the state)
     "cat_service": (("obj", "state"), "cstate"),
     "unsolicited_events_service": (("uns", "state"), "ustate"),
@@ -713,6 +722,14 @@ LIB_NAME = "HandlerTieLib.v"
 GEN_LOGICAL_PATH = "HandlerTieGen"
 COQC_TIMEOUT_S = 300
 CLANG_TIMEOUT_S = 60
+
+
+def is_object_pointer(param):
+    """The type of a parameter is `struct cat_object *`, possibly const-qualified (pointer to const
+    and / or const pointer): the qualifiers change nothing to what the function may be translated to
+    (a function that takes a pointer to const cannot store through it; clang checks that)."""
+    q = param.get("type", {}).get("qualType", "")
+    return " ".join(w for w in q.replace("*", " * ").split() if w != "const") == "struct cat_object *"
 
 
 class Unsupported(Exception):
@@ -794,6 +811,12 @@ def read_defines(src_dir):
 
 
 _SOURCE_CACHE = {}
+
+
+def reset_globals():
+    """Per-run state of the module: the cache of source texts (the same path may hold another text
+    in the next run of the same process)."""
+    _SOURCE_CACHE.clear()
 
 
 def macro_name(node):
@@ -1009,6 +1032,10 @@ class FunctionTranslator:
         self.oracle_sites = 0            # oracle call sites translated so far
         self.ptr_origin = {}             # Coq name of a pointer local -> (helper it came from, fsm term)
         self.getter = None               # GETTER_FUNCTIONS entry: (kind of the result, reads the descriptor)
+        self.uns_alias_ids = set()       # clang ids of the locals that are only ever &self->unsolicited_fsm
+        self.outarg_locals = {}          # clang id of a local passed as &x to an OUT_HELPERS callee -> kind
+        self.loop_sig = None             # 'loop=<kinds of the carried locals>' / 'wloop=..': selects the
+                                         # block of the template that states the loop lemma (see MARK)
 
     # ---- names -----------------------------------------------------------------------
     def fresh(self, base, bare_first=False):
@@ -1061,8 +1088,10 @@ class FunctionTranslator:
 
     # ---- self and its fields ---------------------------------------------------------------
     def is_self(self, node):
+        """node is `self` (read; possibly converted to `const struct cat_object *` because the callee
+        takes a pointer to const: a NoOp conversion)."""
         node = strip(node)
-        if node.get("kind") == "ImplicitCastExpr" and node.get("castKind") == "LValueToRValue":
+        while node.get("kind") == "ImplicitCastExpr" and node.get("castKind") in ("LValueToRValue", "NoOp"):
             node = strip(node["inner"][0])
         return node.get("kind") == "DeclRefExpr" and \
             node.get("referencedDecl", {}).get("id") == self.self_id
@@ -1075,6 +1104,9 @@ class FunctionTranslator:
         base, name = strip(node["inner"][0]), node.get("name")
         if node.get("isArrow") and self.is_self(base):
             return ("obj", name)
+        if node.get("isArrow") and strip_casts(base).get("kind") == "DeclRefExpr" and \
+                strip_casts(base).get("referencedDecl", {}).get("id") in self.uns_alias_ids:
+            return ("uns", name)                   # x->F with x = &self->unsolicited_fsm
         if not node.get("isArrow") and base.get("kind") == "MemberExpr" \
                 and base.get("name") == "unsolicited_fsm" and base.get("isArrow") \
                 and self.is_self(base["inner"][0]):
@@ -1320,6 +1352,8 @@ class FunctionTranslator:
         for a, k in zip(args, kinds):
             if k == "cmdrec":
                 out.append(par(self.cmdrec_of(a, s, env, G)))
+            elif k in ("wbufc", "wbufu"):
+                out.append(par(self.wbuf_value(a, a, "obj" if k == "wbufc" else "uns", s, env)))
             else:
                 out.append(par(self.coerce(a, self.ex(a, s, env, G), k).term))
         return out
@@ -1727,18 +1761,29 @@ class FunctionTranslator:
                 return idiom
             ta = self.truth(a, s, env, G)
             G2 = list(G)                          # the right operand is evaluated conditionally: it
-            tb = self.truth(b, s, env, G2)        # may only repeat partial reads already made
-            if len(G2) != len(G):
-                refuse(b, "partial read in the right operand of %s" % op)
+            tb = self.truth(b, s, env, G2)        # may only repeat partial reads already made,
+            for g in G2[len(G):]:                 # or make one that binds nothing (a size_t
+                if (g.fail_pat, g.ok_pat) != ("false", "true"):      # subtraction): that one is
+                    refuse(b, "partial read in the right operand of %s" % op)   # guarded by "the right
+                # operand is evaluated": it fails only if the left operand does not decide the result
+                G.append(Guard("%s || %s" % (opnd(ta) if op == "||" else "negb %s" % par(ta), opnd(g.scrut)),
+                               "false", "true"))
             return "%s %s %s" % (opnd(ta), op, opnd(tb))
         if kind == "UnaryOperator" and op == "!":
             return "negb %s" % par(self.truth(node["inner"][0], s, env, G))
         if kind == "BinaryOperator" and op in ("==", "!=", "<", "<=", ">", ">="):
             return self.comparison(node, op, s, env, G)
+        # a pointer used as a truth value: p  is  p != NULL
+        idiom = self.var_null_idiom(node, None, "!=", s, env, G)
+        if idiom is not None:
+            return idiom
+        opt = self.optional_string(node, s, env, G)
+        if opt is not None:
+            return "match %s with None => false | Some _ => true end" % opt
         e = self.ex(node, s, env, G)
         if e.kind in ("bool", "truth", "fnptr"):
             return e.term
-        if e.kind in PTR_KINDS:
+        if e.kind in PTR_KINDS or e.kind in ("cmdptr", "cmdrecopt"):
             return "match %s with None => false | Some _ => true end" % e.term
         if e.kind == "int":
             return "true" if e.lit != 0 else "false"
@@ -1751,22 +1796,29 @@ class FunctionTranslator:
     def vars_nonempty_idiom(self, a, b, s, env, G):
         """(c->var != NULL) && (c->var_num > 0)  <->  c_vars c is not empty."""
         a, b = strip(a), strip(b)
-        if not (a.get("opcode") == "!=" and b.get("opcode") == ">"):
-            return None
-        al, ar = (strip(x) for x in a["inner"])
-        bl, br = (strip(x) for x in b["inner"])
 
         def member(n, name):
             while n.get("kind") in ("ImplicitCastExpr", "ParenExpr"):
                 n = n["inner"][0]
             f = self.field_of(n)
             return f[2] if f and f[0] == "cmd" and f[1] == name else None
+        if a.get("kind") == "BinaryOperator" and a.get("opcode") == "!=":
+            al, ar = (strip(x) for x in a["inner"])
+        else:
+            al, ar = a, None                      # c->var as a truth value
+        if b.get("kind") == "BinaryOperator" and b.get("opcode") in (">", "!="):
+            bl, br = (strip(x) for x in b["inner"])
+        else:
+            bl, br = b, None                      # c->var_num as a truth value
         base_a, base_b = member(al, "var"), member(bl, "var_num")
         if base_a is None or base_b is None:
             return None
-        if self.ex(ar, s, env, []).kind != "null":
+        try:
+            if ar is not None and self.ex(ar, s, env, []).kind != "null":
+                return None
+            zero = self.ex(br, s, env, []) if br is not None else Ex("int", None, lit=0)
+        except Unsupported:
             return None
-        zero = self.ex(br, s, env, [])
         if zero.kind != "int" or zero.lit != 0:
             return None
         ca, cb = self.cmdrec_of(base_a, s, env, G), self.cmdrec_of(base_b, s, env, G)
@@ -1779,12 +1831,12 @@ class FunctionTranslator:
         one list for var / var_num: var == NULL is identified with var_num == 0)."""
         if op not in ("==", "!="):
             return None
-        for x, y in ((a, b), (b, a)):
+        for x, y in ((a, b), (b, a)) if b is not None else ((a, None),):
             m = strip_casts(x)
             f = self.field_of(m) if m.get("kind") == "MemberExpr" else None
             if f and f[0] == "cmd" and f[1] == "var" and self.local_kind(f[2], env)[0] in (None, "cmdrec"):
                 try:
-                    if self.ex(y, s, env, []).kind != "null":
+                    if y is not None and self.ex(y, s, env, []).kind != "null":
                         return None
                 except Unsupported:
                     return None
@@ -2064,7 +2116,7 @@ class StatementTranslator(FunctionTranslator):
         become parameters."""
         if not rest:
             return "", kb
-        need = (local_reads(rest) | later) & local_writes([stmt]) & set(env)
+        need = (local_reads(rest) | later) & (local_writes([stmt]) - self.uns_alias_ids) & set(env)
         if self.oracle is not None and self.has_oracle_site(stmt):
             need = need | {ASK_ID}             # the statement may make the request
         params = sorted(need, key=lambda i: str(env[i][0] or "") + i)
@@ -2197,6 +2249,8 @@ class StatementTranslator(FunctionTranslator):
         if kind == "IfStmt":
             if S.get("hasInit") or S.get("hasVar") or len(S.get("inner", [])) not in (2, 3):
                 refuse(S, "if statement with initialiser/declaration")
+            if self.is_merged_condition(S["inner"][0]):
+                return self.split_if(S, rest, s, env, kb, kbrk, later)
             pre, s1, c, env = self.condition(S["inner"][0], s, env, G)
             self.check_pure(S, s, s1)
             let, kc = self.make_cont(S, rest, env, kb, kbrk, later)
@@ -2225,6 +2279,8 @@ class StatementTranslator(FunctionTranslator):
                 if d.get("kind") != "VarDecl" or d.get("storageClass"):
                     refuse(d, "declaration other than a plain local variable")
                 self.local_names[d["id"]] = d.get("name", "anon")
+                if d["id"] in self.uns_alias_ids:       # only ever &self->unsolicited_fsm: see field_of
+                    continue
                 k = self.kind_of_type(d)
                 if not d.get("inner"):
                     env = dict(env)
@@ -2258,6 +2314,57 @@ class StatementTranslator(FunctionTranslator):
         else:
             body = text + after
         return self.wrap(G, body, kb, s, env0)
+
+    # ---- merged conditions:  if (A || B) T else E  with calls that may modify *self in A / B ------
+    def is_merged_condition(self, cond):
+        """cond = A && B / A || B / !(..) of those, in which a helper that returns a status AND may
+        modify *self is called (print_string_to_buf(..) != 0 || ..): C evaluates it left to right
+        and stops as soon as the result is known."""
+        n = strip(cond)
+        while n.get("kind") == "UnaryOperator" and n.get("opcode") == "!":
+            n = strip(n["inner"][0])
+        if not (n.get("kind") == "BinaryOperator" and n.get("opcode") in ("&&", "||")):
+            return False
+        if self.has_oracle_site(n):
+            return False                  # `(A) && (CALL CMP literal)`: see oracle_condition
+        return any(c.get("kind") == "CallExpr" and self.is_stateful_callee(c) for c in walk(n))
+
+    def split_if(self, S, rest, s, env, kb, kbrk, later):
+        """if (A || B) T else E   is   if (A) T else if (B) T else E,
+        if (A && B) T else E   is   if (A) { if (B) T else E } else E,   if (!A) T else E  is  if (A) E else T
+        with T and E bound once, as continuations (so the merged form generates what the nested ifs
+        with identical bodies generate)."""
+        if S.get("hasInit") or S.get("hasVar") or len(S.get("inner", [])) not in (2, 3):
+            refuse(S, "if statement with initialiser/declaration")
+        cond = S["inner"][0]
+        if local_writes([cond]):
+            refuse(cond, "a local variable is assigned inside a merged condition")
+        let, kc = self.make_cont(S, rest, env, kb, kbrk, later)
+        later2 = later | local_reads(rest)
+        let_t, k_then = self.make_cont(cond, [S["inner"][1]], env, kc, kbrk, later2)
+        let_e, k_else = self.make_cont(cond, [S["inner"][2]] if len(S["inner"]) == 3 else [], env, kc,
+                                       kbrk, later2)
+        env_in = env
+
+        def branch(n, st, kt, ke):
+            n = strip(n)
+            if n.get("kind") == "UnaryOperator" and n.get("opcode") == "!" and self.is_merged_condition(n):
+                return branch(n["inner"][0], st, ke, kt)
+            if n.get("kind") == "BinaryOperator" and n.get("opcode") in ("&&", "||") \
+                    and self.is_merged_condition(n):
+                a, b = n["inner"]
+                if n["opcode"] == "||":
+                    return branch(a, st, kt, Cont(lambda s2, e2, fault=False: branch(b, s2, kt, ke)))
+                return branch(a, st, Cont(lambda s2, e2, fault=False: branch(b, s2, kt, ke)), ke)
+            G = []
+            pre, s1, c, env1 = self.condition(n, st, env_in, G)
+            if {k: v for k, v in env1.items() if k != ASK_ID} != {k: v for k, v in env_in.items() if k != ASK_ID}:
+                refuse(n, "a local variable is assigned inside a merged condition")
+            self.check_pure(S, st, s1)
+            body = "%sif %s then\n%s\nelse\n%s" % (pre, c, ind(kt.call(s1, env_in, False)),
+                                                    ind(ke.call(s1, env_in, False)))
+            return self.wrap(G, body, kb, st, env_in)
+        return self.budget(let + let_t + let_e + branch(cond, s, k_then, k_else))
 
     def check_pure(self, node, s_before, s_after):
         if s_before != s_after and self.table is not None:
@@ -2407,7 +2514,7 @@ class StatementTranslator(FunctionTranslator):
             loop.update(kind="varrec", list="c_vars %s" % par(c), shape="c->var[i]",
                         is_array=is_var_array)
         body_items = body.get("inner", []) if body.get("kind") == "CompoundStmt" else [body]
-        written = local_writes(body_items)
+        written = local_writes(body_items) - self.uns_alias_ids
         if idx_id in written or any(
                 c.get("kind") == "UnaryOperator" and c.get("opcode") in ("++", "--") and
                 strip(c["inner"][0]).get("referencedDecl", {}).get("id") == idx_id
@@ -2431,6 +2538,7 @@ class StatementTranslator(FunctionTranslator):
         n = self.fresh("loop")[4:]
         base = "g_%s" % self.gname_base
         rtype = self.rtype_text
+        self.loop_sig = "loop=" + ",".join(env[i][1] for i in carried)
 
         def binder(i, e):
             return "(%s : %s)" % (e[i][0], COQ_TYPE[e[i][1]])
@@ -2523,7 +2631,7 @@ class StatementTranslator(FunctionTranslator):
             refuse(S, "continue in a countdown loop")
         if rest_cond is not None and cid in local_writes([rest_cond]):
             refuse(S, "the loop condition modifies the counter")
-        written = local_writes(body_items)
+        written = local_writes(body_items) - self.uns_alias_ids
         after_reads = local_reads(rest) | later
         pointer_kinds = ("cmdrec", "grp", "varrec", "ringref")
         carried = [i for i in env if i in written and i != cid and env[i][1] not in pointer_kinds]
@@ -2540,6 +2648,7 @@ class StatementTranslator(FunctionTranslator):
                  and env[i][0] is not None and re.fullmatch(r"[\w']+", env[i][0])]
         n = self.fresh("loop")[4:]
         base, rtype = "g_%s" % self.gname_base, self.rtype_text
+        self.loop_sig = "wloop=" + ",".join(env[i][1] for i in carried)
         cname = "x_" + self.local_names[cid]
         pred = self.fresh("n")
 
@@ -2631,6 +2740,8 @@ class StatementTranslator(FunctionTranslator):
                  "struct cat_command_group *": "grp", "struct cat_variable *": "varrec",
                  "struct cat_unsolicited_cmd *": "ringref"}
         q = q.replace("const struct", "struct")
+        if d.get("id") in self.outarg_locals and q in ("struct cat_command *", "struct cat_command const *"):
+            return self.outarg_locals[d["id"]]     # a command pointer that a callee writes through &x
         m = re.fullmatch(r"char\[(\d+)\]", q)
         if m:                               # a local string buffer, only filled by strcpy(.., "LIT")
             self.array_size[d.get("id")] = int(m.group(1))
@@ -3015,6 +3126,8 @@ class StatementTranslator(FunctionTranslator):
                 return "let %s := ring_store %s %s %s in\n" % (s1, par(x), fn, s), s1, env
             if tgt.get("kind") == "DeclRefExpr":                      # local variable
                 did = tgt.get("referencedDecl", {}).get("id")
+                if did in self.uns_alias_ids:                         # x = &self->unsolicited_fsm
+                    return "", s, env
                 if did not in env:
                     refuse(n, "assignment to an unmapped variable")
                 if did in self.out_ids:
@@ -3173,9 +3286,15 @@ class StatementTranslator(FunctionTranslator):
             refuse(n, "%s other than (get_atcmd_buf(self), .., get_atcmd_buf_size(self))" % name)
         if name == "strncpy":
             spelled = src.get("value", "")
-            if src.get("kind") != "StringLiteral" or not re.fullmatch(r'"[A-Za-z0-9 +:_-]*"', spelled):
+            ent = env.get(src.get("referencedDecl", {}).get("id")) if src.get("kind") == "DeclRefExpr" else None
+            if ent is not None and ent[0] is not None and ent[1] == "str" and re.fullmatch(r"p_\w+", ent[0]):
+                # a `const char *` parameter (of an auxiliary function): the string its callers pass,
+                # each of which is a literal without NUL or a command name (see coerce / string_literal)
+                data = "strncpy_buf (asz %s) %s" % (s, ent[0])
+            elif src.get("kind") != "StringLiteral" or not re.fullmatch(r'"[A-Za-z0-9 +:_-]*"', spelled):
                 refuse(n, "strncpy of something that is not a plain string literal")
-            data = "strncpy_buf (asz %s) [%s]%%N" % (s, "; ".join(str(ord(c)) for c in spelled[1:-1]))
+            else:
+                data = "strncpy_buf (asz %s) [%s]%%N" % (s, "; ".join(str(ord(c)) for c in spelled[1:-1]))
         else:
             v = self.coerce(n, self.ex(n["inner"][2], s, env, G), "Z")
             m = re.fullmatch(r"(\d+)%Z", v.term)
@@ -3213,6 +3332,23 @@ class StatementTranslator(FunctionTranslator):
             return text + t2, s2, env
         return text, s1, env
 
+    def wbuf_value(self, node, rhs, machine, s, env):
+        """A pointer stored into ->write_buf of the command ('obj') / event ('uns') machine, as a
+        Defs.wbuf: the new-line string, or the working buffer OF THAT MACHINE; or a parameter that
+        stands for such a value (kind wbufc / wbufu)."""
+        r = strip_casts(rhs)
+        if r.get("kind") == "CallExpr" and len(r["inner"]) == 2 and self.is_self(r["inner"][1]):
+            name = self.callee_name(r)
+            if name == "get_new_line_chars":
+                return "WB_NL (k_cr (k %s))" % s
+            if (name, machine) in (("get_atcmd_buf", "obj"), ("get_unsolicited_buf", "uns")):
+                return "WB_MAIN"
+        if r.get("kind") == "DeclRefExpr":
+            ent = env.get(r.get("referencedDecl", {}).get("id"))
+            if ent is not None and ent[0] is not None and ent[1] == ("wbufc" if machine == "obj" else "wbufu"):
+                return ent[0]
+        refuse(node, "store to ->write_buf other than the listed ones")
+
     def pointer_store(self, node, f, k, rhs, s, env, G):
         r = strip_casts(rhs)
         if k == "cmdptr":
@@ -3220,17 +3356,14 @@ class StatementTranslator(FunctionTranslator):
                 if self.callee_name(r) == "get_command_by_index" and f[0] == "obj":
                     args = self.call_args(r, "get_command_by_index", ["nat"], s, env, G)
                     return "Some %s" % args[0]
+            elif r.get("kind") == "DeclRefExpr" and \
+                    env.get(r.get("referencedDecl", {}).get("id"), (None, None))[1] == "cmdptr":
+                return self.ex(rhs, s, env, G).term       # a local that pop_unsolicited_cmd wrote
             elif self.ex(rhs, s, env, []).kind == "null":
                 return "None"
             refuse(node, "store to ->cmd other than NULL / get_command_by_index(self, e)")
         if k == "wbuf":
-            if r.get("kind") == "CallExpr" and len(r["inner"]) == 2 and self.is_self(r["inner"][1]):
-                name = self.callee_name(r)
-                if name == "get_new_line_chars":
-                    return "WB_NL (k_cr (k %s))" % s
-                if (name, f[0]) in (("get_atcmd_buf", "obj"), ("get_unsolicited_buf", "uns")):
-                    return "WB_MAIN"
-            refuse(node, "store to ->write_buf other than the listed ones")
+            return self.wbuf_value(node, rhs, f[0], s, env)
         # varidx:  c->var  |  &c->var[e]
         if r.get("kind") == "UnaryOperator" and r.get("opcode") == "&":
             a = strip(r["inner"][0])
@@ -3431,7 +3564,89 @@ Local Open Scope nat_scope.
 
 PARAM_KINDS = {"cat_state": "cstate", "cat_unsolicited_state": "ustate", "cat_fsm_type": "fsm",
                "cat_status": "Z", "size_t": "nat", "uint8_t": "lane", "cat_cmd_type": "ctype",
-               "cat_var_access": "vaccess", "char *": "str"}      # const char *: a string that is printed
+               "cat_var_access": "vaccess", "char *": "str",      # const char *: a string that is printed
+               "bool": "bool", "_Bool": "bool", "int": "Z", "cat_return_state": "Z"}
+
+
+def uns_aliases(tr, body):
+    """ids of the locals of type `struct cat_unsolicited_fsm *` (possibly const) whose initialiser and
+    every assignment is `&self->unsolicited_fsm`, and that are used only as `x->F` (or assigned):
+    wherever such a local has a value it points to self->unsolicited_fsm, so x->F is
+    self->unsolicited_fsm.F."""
+    def is_uns_address(n):
+        n = strip_casts(n)
+        if n.get("kind") != "UnaryOperator" or n.get("opcode") != "&":
+            return False
+        m = strip(n["inner"][0])
+        return m.get("kind") == "MemberExpr" and m.get("name") == "unsolicited_fsm" and m.get("isArrow") \
+            and tr.is_self(m["inner"][0])
+    cand, bad = {}, set()
+    for c in walk(body):
+        if c.get("kind") == "VarDecl" and not c.get("storageClass"):
+            q = " ".join(w for w in c.get("type", {}).get("qualType", "").split() if w != "const")
+            if q == "struct cat_unsolicited_fsm *":
+                cand[c["id"]] = 0
+                if c.get("inner"):
+                    if c.get("init") == "c" and len(c["inner"]) == 1 and is_uns_address(c["inner"][0]):
+                        cand[c["id"]] += 1
+                    else:
+                        bad.add(c["id"])
+    if not cand:
+        return set()
+    uses = {i: 0 for i in cand}
+    ok_uses = {i: 0 for i in cand}
+    for c in walk(body):
+        if c.get("kind") == "DeclRefExpr" and c.get("referencedDecl", {}).get("id") in cand:
+            uses[c["referencedDecl"]["id"]] += 1
+        if c.get("kind") == "BinaryOperator" and c.get("opcode") == "=":
+            tgt = strip(c["inner"][0])
+            did = tgt.get("referencedDecl", {}).get("id") if tgt.get("kind") == "DeclRefExpr" else None
+            if did in cand:
+                if is_uns_address(c["inner"][1]):
+                    cand[did] += 1
+                    ok_uses[did] += 1
+                else:
+                    bad.add(did)
+        if c.get("kind") == "MemberExpr" and c.get("isArrow"):
+            b = strip_casts(c["inner"][0])
+            if b.get("kind") == "DeclRefExpr" and b.get("referencedDecl", {}).get("id") in cand:
+                ok_uses[b["referencedDecl"]["id"]] += 1
+    return {i for i in cand if i not in bad and cand[i] >= 1 and uses[i] == ok_uses[i]}
+
+
+def stored_param_kind(tr, p, body):
+    """p = a parameter of integer or `char *` type.  If every use of p in the body is
+    `self->F = p;` (an expression statement) for fields F of one kind K that an integer literal /
+    a buffer pointer can be coerced to (wstate, lane; write_buf) -> K (wbufc / wbufu for write_buf of
+    the command / event machine); else None."""
+    q = " ".join(w for w in p.get("type", {}).get("qualType", "").split() if w != "const")
+    if q not in ("int", "unsigned int", "uint8_t", "char *"):
+        return None
+    pid, kinds, uses = p["id"], set(), 0
+
+    def is_p(n):
+        n = strip_casts(n)
+        return n.get("kind") == "DeclRefExpr" and n.get("referencedDecl", {}).get("id") == pid
+    stores = 0
+    for c in walk(body):
+        if c.get("kind") == "DeclRefExpr" and c.get("referencedDecl", {}).get("id") == pid:
+            uses += 1
+        if c.get("kind") == "BinaryOperator" and c.get("opcode") == "=" and is_p(c["inner"][1]):
+            f = tr.field_of(strip(c["inner"][0])) if strip(c["inner"][0]).get("kind") == "MemberExpr" else None
+            if not f or f[0] not in ("obj", "uns"):
+                return None
+            table = OBJ_FIELDS if f[0] == "obj" else UNS_FIELDS
+            if f[1] not in table:
+                return None
+            k = table[f[1]][0]
+            kinds.add({"wbuf": "wbufc" if f[0] == "obj" else "wbufu"}.get(k, k))
+            stores += 1
+    if not stores or stores != uses or len(kinds) != 1:
+        return None
+    k = kinds.pop()
+    if (q == "char *") != (k in ("wbufc", "wbufu")) or k not in ("wbufc", "wbufu", "wstate", "lane"):
+        return None
+    return k
 
 
 def find_mode(tr, decl, body_items):
@@ -3569,9 +3784,13 @@ def translate_function(fn, decls, defines_ok, defined_in_tu=frozenset(), aux=Non
             tr.getter = GETTER_FUNCTIONS[fn]
         params = [c for c in d["inner"] if c.get("kind") == "ParmVarDecl"]
         body = [c for c in d["inner"] if c.get("kind") == "CompoundStmt"][0]
-        if d.get("variadic") or not params or \
-                params[0].get("type", {}).get("qualType") != "struct cat_object *":
+        if d.get("variadic") or not params or not is_object_pointer(params[0]):
             refuse(d, "first parameter is not `struct cat_object *self`")
+        if as_aux is not None and any(c.get("kind") in ("ForStmt", "WhileStmt", "DoStmt") for c in walk(body)):
+            # (the tie of a loop needs a loop lemma, stated by hand in HandlerTie.v.in for the loops of
+            #  the functions it knows by name; a helper introduced by a refactoring is not one of them)
+            refuse(d, "an auxiliary function that contains a loop (no loop lemma can be stated for it in "
+                      + TEMPLATE_NAME + ")")
         tr.self_id = params[0]["id"]
         env, binders, param_kinds = {}, [], []
         for p in params[1:]:
@@ -3588,6 +3807,11 @@ def translate_function(fn, decls, defines_ok, defined_in_tu=frozenset(), aux=Non
                             strip_casts(c["inner"][0]).get("referencedDecl", {}).get("id") == p["id"]
                             for c in walk(body))
                 pk = "cmdrec" if deref else "cmdidx"
+            elif stored_param_kind(tr, p, body) is not None:
+                # a parameter that is only STORED into fields of self of one kind is of that kind
+                # (e.g. `int write_state` stored into self->write_state, `const char *buf` stored
+                # into self->write_buf)
+                pk = stored_param_kind(tr, p, body)
             elif q in PARAM_KINDS:
                 pk = PARAM_KINDS[q]
             elif fragment is not None and fragment[0] == "_body" and fn == INIT_FUNCTION:
@@ -3611,6 +3835,15 @@ def translate_function(fn, decls, defines_ok, defined_in_tu=frozenset(), aux=Non
                     binders.append("(%s : %s)" % (name, COQ_TYPE[k]))
                     param_kinds.append(k)
         tr.written_locals = local_writes(items)
+        tr.uns_alias_ids = uns_aliases(tr, body)
+        for c in walk(body):               # locals that a helper with out-parameters writes through &x
+            if c.get("kind") == "CallExpr" and tr.callee_name(c) in OUT_HELPERS:
+                _, _, kinds_, outk_ = OUT_HELPERS[tr.callee_name(c)]
+                for a, ok_ in zip(c["inner"][2 + len(kinds_):], outk_):
+                    a = strip_casts(a)
+                    x = strip(a["inner"][0]) if a.get("kind") == "UnaryOperator" and a.get("opcode") == "&" else {}
+                    if x.get("kind") == "DeclRefExpr" and ok_ == "cmdptr":
+                        tr.outarg_locals[x.get("referencedDecl", {}).get("id")] = ok_
         if fn in ORACLE_FUNCTIONS and as_aux is None and fragment is None:
             tr.oracle = ORACLE_FUNCTIONS[fn]
             env[ASK_ID] = ("ask0", "ask")
@@ -3686,7 +3919,7 @@ def translate_function(fn, decls, defines_ok, defined_in_tu=frozenset(), aux=Non
                         fn, " ".join(["(D : desc)"] + binders + ["(s : state)"]), ind(call))
         return text, {"status": "translated", "coq_name": gname, "c_name": fn, "lines": [first, last],
                       "mode": tr.mode, "const_status": tr.const_status, "ret_kind": tr.ret_kind,
-                      "param_kinds": param_kinds, "pure": tr.pure,
+                      "param_kinds": param_kinds, "pure": tr.pure, "variant": tr.loop_sig,
                       "out_kinds": [env[i][1] for i in tr.out_ids]}
     except Unsupported as e:
         return None, {"status": "unsupported", "why": str(e)}
@@ -3714,37 +3947,132 @@ def translate_enum_values(enums):
                   "mode": "table", "const_status": None}
 
 
-def mutex_test(tr, S):
-    """S = `if ((self->mutex != NULL) && (self->mutex->OP() != 0)) return E;`  ->  (OP, E) with
-    OP in lock/unlock and E an enumerator name; None if S is not of that shape."""
-    if S.get("kind") != "IfStmt" or len(S.get("inner", [])) != 2 or S.get("hasInit") or S.get("hasVar"):
-        return None
-    cond, then = strip(S["inner"][0]), S["inner"][1]
-    if cond.get("kind") != "BinaryOperator" or cond.get("opcode") != "&&":
-        return None
-    a, b = strip(cond["inner"][0]), strip(cond["inner"][1])
+class _MutexSim:
+    """A tiny interpreter for the test made on the mutex: the condition of `if (COND) return E;` is
+    EVALUATED for every case of the environment (mutex NULL / not NULL, lock() / unlock() returning
+    0, 1, -1, 7) with C's short-circuit rules, through calls of helpers of cat.c that take only
+    `self` (e.g. `static bool lock_mutex(const struct cat_object *self)`) whose body consists of
+    asserts, `if (c) return e; [else ..]` and `return e;`.  Accepted expressions: self->mutex, NULL,
+    integer literals, == != ! && || ?:, self->mutex->lock() / unlock(), such helper calls.
+    Anything else raises Unsupported."""
+    MAX_DEPTH = 4
 
-    def is_mutex(n):
+    def __init__(self, tr, defs):
+        self.tr, self.defs = tr, defs
+
+    def run(self, cond, mutex_not_null, answer):
+        self.m, self.answer, self.calls = mutex_not_null, answer, []
+        v = self.ev(cond, self.tr.self_id, 0)
+        return self.truth(v), list(self.calls)
+
+    def truth(self, v):
+        if v == "null":
+            return False
+        if isinstance(v, tuple):
+            return v[1]
+        return v != 0
+
+    def is_self(self, n, self_id):
+        n = strip_casts(n)
+        return n.get("kind") == "DeclRefExpr" and n.get("referencedDecl", {}).get("id") == self_id
+
+    def is_mutex(self, n, self_id):
         n = strip_casts(n)
         return n.get("kind") == "MemberExpr" and n.get("name") == "mutex" and n.get("isArrow") \
-            and tr.is_self(n["inner"][0])
-    if not (a.get("kind") == "BinaryOperator" and a.get("opcode") == "!=" and is_mutex(a["inner"][0])):
+            and self.is_self(n["inner"][0], self_id)
+
+    def ev(self, n, self_id, depth):
+        n = strip(n)
+        kind = n.get("kind")
+        if kind == "ImplicitCastExpr" or kind == "CStyleCastExpr":
+            ck = n.get("castKind")
+            if ck == "NullToPointer":
+                return "null"
+            if ck in ("LValueToRValue", "NoOp", "IntegralCast", "BitCast"):
+                return self.ev(n["inner"][0], self_id, depth)
+            if ck in ("IntegralToBoolean", "PointerToBoolean"):
+                return 1 if self.truth(self.ev(n["inner"][0], self_id, depth)) else 0
+            raise Unsupported("conversion of kind %s in a test of the mutex" % ck)
+        if kind == "IntegerLiteral":
+            return int(n["value"])
+        if kind == "MemberExpr" and self.is_mutex(n, self_id):
+            return ("ptr", self.m)
+        if kind == "UnaryOperator" and n.get("opcode") == "!":
+            return 0 if self.truth(self.ev(n["inner"][0], self_id, depth)) else 1
+        if kind == "BinaryOperator" and n.get("opcode") in ("&&", "||"):
+            a = self.truth(self.ev(n["inner"][0], self_id, depth))
+            if a == (n["opcode"] == "||"):
+                return 1 if a else 0
+            return 1 if self.truth(self.ev(n["inner"][1], self_id, depth)) else 0
+        if kind == "BinaryOperator" and n.get("opcode") in ("==", "!="):
+            a, b = (self.ev(x, self_id, depth) for x in n["inner"])
+            if "null" in (a, b):
+                p = b if a == "null" else a
+                if not isinstance(p, tuple):
+                    raise Unsupported("NULL compared with a non-pointer")
+                eq = not p[1]
+            elif isinstance(a, tuple) or isinstance(b, tuple):
+                raise Unsupported("pointer comparison")
+            else:
+                eq = a == b
+            return 1 if eq == (n["opcode"] == "==") else 0
+        if kind == "ConditionalOperator":
+            c = self.truth(self.ev(n["inner"][0], self_id, depth))
+            return self.ev(n["inner"][1 if c else 2], self_id, depth)
+        if kind == "CallExpr":
+            callee = strip_casts(n["inner"][0])
+            if callee.get("kind") == "MemberExpr" and callee.get("isArrow") and len(n["inner"]) == 1 \
+                    and callee.get("name") in ("lock", "unlock") and self.is_mutex(callee["inner"][0], self_id):
+                if not self.m:
+                    raise Unsupported("the mutex interface is called through a NULL pointer")
+                self.calls.append(callee["name"])
+                return self.answer
+            name = self.tr.callee_name(n)
+            decls = self.defs.get(name) or []
+            if len(decls) == 1 and len(n["inner"]) == 2 and self.is_self(n["inner"][1], self_id) \
+                    and depth < self.MAX_DEPTH:
+                d = decls[0]
+                params = [c for c in d["inner"] if c.get("kind") == "ParmVarDecl"]
+                body = [c for c in d["inner"] if c.get("kind") == "CompoundStmt"][0]
+                if len(params) == 1 and is_object_pointer(params[0]):
+                    r = self.run_stmts(body.get("inner", []), params[0]["id"], depth + 1)
+                    if r is None:
+                        raise Unsupported("helper %s can end without a return" % name)
+                    return r
+            raise Unsupported("call of %s in a test of the mutex" % name)
+        raise Unsupported("expression of kind %s in a test of the mutex" % kind)
+
+    def run_stmts(self, stmts, self_id, depth):
+        for st in stmts:
+            if st.get("kind") == "NullStmt" or is_assert(st):
+                continue
+            if st.get("kind") == "CompoundStmt":
+                r = self.run_stmts(st.get("inner", []), self_id, depth)
+            elif st.get("kind") == "ReturnStmt" and st.get("inner"):
+                return self.ev(st["inner"][0], self_id, depth)
+            elif st.get("kind") == "IfStmt" and not st.get("hasInit") and not st.get("hasVar") \
+                    and len(st.get("inner", [])) in (2, 3):
+                c = self.truth(self.ev(st["inner"][0], self_id, depth))
+                branch = st["inner"][1:2] if c else st["inner"][2:3]
+                r = self.run_stmts(branch, self_id, depth)
+            else:
+                raise Unsupported("statement of kind %s in a helper that tests the mutex" % st.get("kind"))
+            if r is not None:
+                return r
         return None
-    try:
-        if tr.ex(a["inner"][1], "s", {}, []).kind != "null":
-            return None
-    except Unsupported:
+
+
+def mutex_test(tr, S, defs=None):
+    """S = `if (COND) return E;` where COND means  (self->mutex != NULL) && (self->mutex->OP() != 0)
+    -- written so, or with truth values, or through a helper such as `!lock_mutex(self)` (decided by
+    evaluating COND in every case of the environment, see _MutexSim: mutex NULL -> false and nothing
+    is called; mutex not NULL -> OP() is called exactly once and COND is `its result != 0`).
+    ->  (OP, E) with OP in lock/unlock and E an enumerator name; None if S is not of that shape."""
+    if S.get("kind") != "IfStmt" or len(S.get("inner", [])) != 2 or S.get("hasInit") or S.get("hasVar"):
         return None
-    if not (b.get("kind") == "BinaryOperator" and b.get("opcode") == "!="):
-        return None
-    call, zero = strip_casts(b["inner"][0]), strip_casts(b["inner"][1])
-    if zero.get("kind") != "IntegerLiteral" or zero.get("value") != "0":
-        return None
-    if call.get("kind") != "CallExpr" or len(call.get("inner", [])) != 1:
-        return None
-    callee = strip_casts(call["inner"][0])
-    if not (callee.get("kind") == "MemberExpr" and callee.get("isArrow")
-            and callee.get("name") in ("lock", "unlock") and is_mutex(callee["inner"][0])):
+    cond, then = S["inner"][0], S["inner"][1]
+    if not any(c.get("kind") == "MemberExpr" and c.get("name") == "mutex" for c in walk(cond)) and \
+            not any(c.get("kind") == "CallExpr" for c in walk(cond)):
         return None
     if then.get("kind") == "CompoundStmt" and len(then.get("inner", [])) == 1:
         then = then["inner"][0]
@@ -3752,7 +4080,43 @@ def mutex_test(tr, S):
     d = v.get("referencedDecl", {})
     if d.get("kind") != "EnumConstantDecl":
         return None
-    return callee["name"], d.get("name")
+    sim = _MutexSim(tr, defs or {})
+    try:
+        if sim.run(cond, False, 0) != (False, []):
+            return None
+        op = None
+        for answer in (0, 1, -1, 7):
+            value, calls = sim.run(cond, True, answer)
+            if len(calls) != 1 or value != (answer != 0) or (op is not None and calls[0] != op):
+                return None
+            op = calls[0]
+    except (Unsupported, KeyError, IndexError, TypeError):
+        return None
+    return op, d.get("name")
+
+
+def mutex_test_explain(tr, S, defs):
+    """For the report: S = `if (COND) return E;` whose COND reaches the mutex interface but is NOT
+    the test mutex_test accepts -> a sentence saying how it behaves; else None."""
+    if S.get("kind") != "IfStmt" or len(S.get("inner", [])) != 2 or mutex_test(tr, S, defs) is not None:
+        return None
+    sim, rows, touched = _MutexSim(tr, defs or {}), [], False
+    for m, answer in ((False, 0), (True, 0), (True, 1)):
+        try:
+            value, calls = sim.run(S["inner"][0], m, answer)
+            rows.append("mutex %s%s: %s, calls %s" % (
+                "!= NULL" if m else "== NULL", ", lock()/unlock() answering %d" % answer if m else "",
+                "true" if value else "false", "/".join(calls) or "nothing"))
+            touched = touched or bool(calls)
+        except Unsupported as e:
+            rows.append("mutex %s: %s" % ("!= NULL" if m else "== NULL", e))
+            touched = touched or "NULL pointer" in str(e)
+        except (KeyError, IndexError, TypeError):
+            return None
+    if not touched:
+        return None
+    return "the test at line %s reaches the mutex interface but is not `(self->mutex != NULL) && " \
+           "(self->mutex->OP() != 0)` [%s]" % (node_line(S), "; ".join(rows))
 
 
 def translate_api(fn, decls, defines_ok, defined_in_tu, aux, service=False):
@@ -3767,17 +4131,18 @@ def translate_api(fn, decls, defines_ok, defined_in_tu, aux, service=False):
         tr = StatementTranslator(fn, d, defines_ok, False)
         params = [c for c in d["inner"] if c.get("kind") == "ParmVarDecl"]
         body = [c for c in d["inner"] if c.get("kind") == "CompoundStmt"][0]
-        if not params or params[0].get("type", {}).get("qualType") != "struct cat_object *":
+        if not params or not is_object_pointer(params[0]):
             refuse(d, "first parameter is not `struct cat_object *self`")
         tr.self_id = params[0]["id"]
         items = [i for i in body.get("inner", []) if not is_assert(i)]
-        tests = [(n, mutex_test(tr, i)) for n, i in enumerate(items)]
+        tests = [(n, mutex_test(tr, i, aux.defs if aux is not None else {})) for n, i in enumerate(items)]
         locks = [n for n, m in tests if m and m[0] == "lock"]
         unlocks = [n for n, m in tests if m and m[0] == "unlock"]
         if len(locks) != 1 or len(unlocks) != 1 or locks[0] > unlocks[0]:
+            why = [w for w in (mutex_test_explain(tr, i, aux.defs if aux is not None else {}) for i in items) if w]
             refuse(d, "expected one `if ((self->mutex != NULL) && (self->mutex->lock() != 0)) return E;` "
                       "followed by one such test of unlock() at the top level of the function, found "
-                      "%d and %d" % (len(locks), len(unlocks)))
+                      "%d and %d%s" % (len(locks), len(unlocks), "".join("; " + w for w in why)))
         li, ui = locks[0], unlocks[0]
         for which, n in (("lock", li), ("unlock", ui)):
             e = tests[n][1][1]
@@ -3886,7 +4251,7 @@ def translate_init(fn, decls, defines_ok, defined_in_tu, aux):
         tr = StatementTranslator(fn, d, defines_ok, False)
         params = [c for c in d["inner"] if c.get("kind") == "ParmVarDecl"]
         body = [c for c in d["inner"] if c.get("kind") == "CompoundStmt"][0]
-        if not params or params[0].get("type", {}).get("qualType") != "struct cat_object *":
+        if not params or not is_object_pointer(params[0]):
             refuse(d, "first parameter is not `struct cat_object *self`")
         tr.self_id = params[0]["id"]
         pid = {p.get("name"): p["id"] for p in params[1:]}
@@ -4033,7 +4398,7 @@ def translate_dispatch(fn, decls):
         tr = StatementTranslator(fn, d, {"lane": False, "wstate": False}, False)
         params = [c for c in d["inner"] if c.get("kind") == "ParmVarDecl"]
         body = [c for c in d["inner"] if c.get("kind") == "CompoundStmt"][0]
-        if len(params) != 1 or params[0].get("type", {}).get("qualType") != "struct cat_object *":
+        if len(params) != 1 or not is_object_pointer(params[0]):
             refuse(d, "the only parameter is not `struct cat_object *self`")
         tr.self_id = params[0]["id"]
         switches = []
@@ -4045,16 +4410,33 @@ def translate_dispatch(fn, decls):
         if len(switches) != 1:
             refuse(d, "expected exactly one top-level switch over the state field, found %d" % len(switches))
         sw = switches[0]
-        # the status variable: the local the function returns in its last statement
-        last = body.get("inner", [None])[-1] or {}
+        # Two styles.  (A) a status variable: `cat_status s [= S0]; .. switch { case X: s = f(self); break; .. }
+        # .. return s;` (what stands between the switch and the return is not looked at here: for
+        # cat_service it is the unit cat_service_bracket).  (B) the arms return: `case X: return f(self);`,
+        # `case Y: g(self); break;` .. and the statements after the switch end with `return <enumerator>;`.
+        # Every arm is EVALUATED symbolically (which handlers it calls, what the returned status is) and
+        # then classified as an entry of the table; S0 is the status "unchanged", which the model fixes
+        # per function (DISPATCH_S0).
+        items_all = body.get("inner", [])
+        last = (items_all or [{}])[-1] or {}
         ret = strip_casts(last["inner"][0]) if last.get("kind") == "ReturnStmt" and last.get("inner") else {}
-        status_id = ret.get("referencedDecl", {}).get("id") if ret.get("kind") == "DeclRefExpr" else None
-        if status_id is None or ret["referencedDecl"].get("kind") != "VarDecl":
-            refuse(d, "the function does not end with `return <local variable>;`")
+        status_id, status_init = None, None
+        if ret.get("kind") == "DeclRefExpr" and ret.get("referencedDecl", {}).get("kind") == "VarDecl":
+            status_id = ret["referencedDecl"]["id"]
+            for c in walk(body):
+                if c.get("kind") == "VarDecl" and c.get("id") == status_id and c.get("inner"):
+                    status_init = strip_casts(c["inner"][0]).get("referencedDecl", {}).get("name") or "?"
+            after = [last]
+        elif ret.get("kind") == "DeclRefExpr" and ret.get("referencedDecl", {}).get("kind") == "EnumConstantDecl":
+            after = items_all[items_all.index(sw) + 1:]
+        else:
+            refuse(d, "the function does not end with `return <local variable>;` / `return <enumerator>;`")
+        s0_name = DISPATCH_S0[fn]
 
         def is_status_var(n):
-            n = strip(n)
-            return n.get("kind") == "DeclRefExpr" and n.get("referencedDecl", {}).get("id") == status_id
+            n = strip_casts(n)
+            return status_id is not None and n.get("kind") == "DeclRefExpr" \
+                and n.get("referencedDecl", {}).get("id") == status_id
 
         def handler_call(n):
             """f(self[, FSM]) -> 'H_f' / '(H_f FSM)', or None."""
@@ -4072,51 +4454,89 @@ def translate_dispatch(fn, decls):
                 refuse(n, "handler %s called with extra arguments" % name)
             return "H_" + name
 
-        def assign_to_status(n):
-            """s = <rhs>  ->  rhs node, or None."""
-            n = strip(n)
-            if n.get("kind") == "BinaryOperator" and n.get("opcode") == "=" and is_status_var(n["inner"][0]):
-                return n["inner"][1]
-            return None
+        def status_of(n, where):
+            """the status an expression stands for: ('call', h) / ('enum', NAME) / ('var',)"""
+            if is_status_var(n):
+                return ("var",)
+            m = strip_casts(n)
+            if m.get("kind") == "CallExpr":
+                return ("call", handler_call(m))
+            name = m.get("referencedDecl", {}).get("name")
+            if m.get("kind") == "DeclRefExpr" and m.get("referencedDecl", {}).get("kind") == "EnumConstantDecl":
+                return ("enum", name)
+            refuse(where, "a status that is neither a handler call, an enumerator nor the status variable")
 
-        def enumerator(n):
-            return strip_casts(n).get("referencedDecl", {}).get("name")
+        def run(stmts, calls, status, where, in_switch):
+            """-> outcome: ('ret', calls, status) | ('ifne', outcome if events are queued, outcome if not)"""
+            for n, st in enumerate(stmts):
+                if st.get("kind") == "NullStmt" or is_assert(st):
+                    continue
+                if st.get("kind") == "CompoundStmt":
+                    return run(st.get("inner", []) + stmts[n + 1:], calls, status, where, in_switch)
+                if st.get("kind") == "BreakStmt":
+                    if not in_switch:
+                        refuse(st, "break outside the dispatching switch")
+                    return run(after, calls, status, where, False)
+                if st.get("kind") == "ReturnStmt" and st.get("inner"):
+                    v = status_of(st["inner"][0], st)
+                    if v[0] == "call":
+                        return ("ret", calls + [v[1]], v)
+                    return ("ret", calls, status if v == ("var",) else v)
+                if st.get("kind") == "IfStmt" and len(st.get("inner", [])) in (2, 3) and not st.get("hasInit") \
+                        and not st.get("hasVar"):
+                    try:
+                        c = tr.truth(st["inner"][0], "s", {}, [])
+                    except Unsupported:
+                        c = None
+                    if c not in ("negb (ring_empty s)", "ring_empty s"):
+                        refuse(st, "an arm of the dispatching switch tests something else than "
+                                   "is_unsolicited_buffer_empty(self)")
+                    then = run([st["inner"][1]] + stmts[n + 1:], calls, status, where, in_switch)
+                    other = run((st["inner"][2:3]) + stmts[n + 1:], calls, status, where, in_switch)
+                    return ("ifne", then, other) if c.startswith("negb") else ("ifne", other, then)
+                e = strip(st)
+                if e.get("kind") == "CallExpr":
+                    calls = calls + [handler_call(e)]
+                    continue
+                if e.get("kind") == "BinaryOperator" and e.get("opcode") == "=" and is_status_var(e["inner"][0]):
+                    v = status_of(e["inner"][1], st)
+                    if v[0] == "call":
+                        calls = calls + [v[1]]
+                    status = status if v == ("var",) else v
+                    continue
+                refuse(st, "an arm of the dispatching switch has none of the supported shapes")
+            refuse(where, "an arm of the dispatching switch does not end with break / return")
 
-        def busy_call_pair(stmts):
-            if len(stmts) == 2:
-                h, rhs = handler_call(stmts[0]), assign_to_status(stmts[1])
-                if h and rhs is not None and enumerator(rhs) == "CAT_STATUS_BUSY":
-                    return h
-            return None
+        def unchanged(status):
+            """the status is S0, the value the model takes for `not assigned`"""
+            if status == ("init",):
+                if status_init != s0_name and DISPATCH_S0_NEEDS_INIT[fn]:
+                    refuse(d, "the status variable is returned without having been assigned, and it is "
+                              "not initialised with %s" % s0_name)
+                return True
+            return status == ("enum", s0_name)
+
+        def classify(o, where):
+            if o[0] == "ret":
+                _, calls, status = o
+                if len(calls) == 1 and status == ("call", calls[0]):
+                    return "DAssign %s" % calls[0]
+                if len(calls) == 1 and status == ("enum", "CAT_STATUS_BUSY"):
+                    return "DBusy %s" % calls[0]
+                if len(calls) == 1 and unchanged(status):
+                    return "DCallOnly %s" % calls[0]
+                if not calls and status == ("enum", "CAT_STATUS_ERROR_UNKNOWN_STATE"):
+                    return "DUnknown"
+                if not calls and unchanged(status):
+                    return "DNothing"
+            elif o[1][0] == "ret" and o[2][0] == "ret":
+                (_, c1, s1), (_, c2, s2) = o[1], o[2]
+                if len(c1) == 1 and s1 == ("enum", "CAT_STATUS_BUSY") and not c2 and unchanged(s2):
+                    return "DIfEvents %s" % c1[0]
+            refuse(where, "an arm of the dispatching switch has none of the supported shapes")
 
         def entry(stmts, where):
-            if not stmts or stmts[-1].get("kind") != "BreakStmt":
-                refuse(where, "an arm of the dispatching switch does not end with break")
-            stmts = stmts[:-1]
-            if not stmts:
-                return "DNothing"
-            if len(stmts) == 1:
-                if strip(stmts[0]).get("kind") == "CallExpr":
-                    return "DCallOnly %s" % handler_call(stmts[0])
-                rhs = assign_to_status(stmts[0])
-                if rhs is not None:
-                    if strip_casts(rhs).get("kind") == "CallExpr":
-                        return "DAssign %s" % handler_call(strip_casts(rhs))
-                    if enumerator(rhs) == "CAT_STATUS_ERROR_UNKNOWN_STATE":
-                        return "DUnknown"
-                if stmts[0].get("kind") == "IfStmt" and len(stmts[0]["inner"]) == 2:
-                    c, then = strip(stmts[0]["inner"][0]), stmts[0]["inner"][1]
-                    if c.get("opcode") == "==" and strip_casts(c["inner"][0]).get("kind") == "CallExpr" \
-                            and tr.callee_name(strip_casts(c["inner"][0])) == "is_unsolicited_buffer_empty" \
-                            and tr.truth(c, "s", {}, []) == "negb (ring_empty s)":
-                        inner = then.get("inner", []) if then.get("kind") == "CompoundStmt" else [then]
-                        h = busy_call_pair(inner)
-                        if h:
-                            return "DIfEvents %s" % h
-            h = busy_call_pair(stmts)
-            if h:
-                return "DBusy %s" % h
-            refuse(where, "an arm of the dispatching switch has none of the supported shapes")
+            return classify(run(stmts, [], ("init",), where, True), where)
 
         arms, cur = [], None
         for item in sw["inner"][1].get("inner", []):
@@ -4164,6 +4584,7 @@ def translate(repo_src_dir, functions=None):
         + API_FUNCTIONS + [SERVICE_BRACKET, INIT_FUNCTION, BUFFER_REGIONS] if functions is None else functions
     src = os.path.join(repo_src_dir, "cat.c")
     header = GEN_HEADER % {"source": src, "lp": GEN_LOGICAL_PATH}
+    reset_globals()
     defs, enums, err = load_translation_unit(repo_src_dir)
     if err:
         return header, {fn: {"status": "unsupported", "why": err} for fn in functions}
@@ -4220,29 +4641,45 @@ def translate(repo_src_dir, functions=None):
 # 6. The tie: assemble HandlerTie.v from the template, compile, diagnose
 # ======================================================================================
 
-MARK = re.compile(r"^\(\*@ (BEGIN) (\w+) (CHECK|THEOREM) @\*\)\s*$|^\(\*@ (END) @\*\)\s*$")
+MARK = re.compile(r"^\(\*@ (BEGIN) (\w+) (CHECK|THEOREM)(?: ([\w=,]+))? @\*\)\s*$|^\(\*@ (END) @\*\)\s*$")
 
 
 def parse_template(text):
-    """Template = Coq text with marker lines (*@ BEGIN <fn> CHECK|THEOREM @*) ... (*@ END @*).
-    -> list of segments (fn or None, kind or None, text); text outside markers is common."""
-    segs, cur, owner = [], [], (None, None)
+    """Template = Coq text with marker lines (*@ BEGIN <fn> CHECK|THEOREM [<variant>] @*) ... (*@ END @*).
+    -> list of segments (fn or None, kind or None, text, variant or None); text outside markers is
+    common.  A block with a <variant> (e.g. loop=bool: the kinds of the locals the generated loop
+    carries) is used only when the translation of <fn> reports that variant: a function whose loop is
+    written in another accepted shape has a generated recursion with other parameters, hence a loop
+    lemma with another statement."""
+    segs, cur, owner = [], [], (None, None, None)
     for line in text.splitlines(keepends=True):
         m = MARK.match(line.rstrip("\n"))
         if not m:
             cur.append(line)
             continue
-        segs.append((owner[0], owner[1], "".join(cur)))
+        segs.append((owner[0], owner[1], "".join(cur), owner[2]))
         cur = []
-        owner = (m.group(2), m.group(3)) if m.group(1) else (None, None)
-    segs.append((owner[0], owner[1], "".join(cur)))
+        owner = (m.group(2), m.group(3), m.group(4)) if m.group(1) else (None, None, None)
+    segs.append((owner[0], owner[1], "".join(cur), owner[2]))
     return segs
 
 
-def assemble(segs, fns, with_theorems=True):
-    """The template restricted to the functions `fns` (optionally without the theorems)."""
-    return "".join(t for fn, kind, t in segs
-                   if fn is None or (fn in fns and (with_theorems or kind == "CHECK")))
+def assemble(segs, fns, with_theorems=True, variants=None):
+    """The template restricted to the functions `fns` (optionally without the theorems);
+    variants[fn] = the variant reported by the translation of fn."""
+    variants = variants or {}
+    return "".join(t for fn, kind, t, var in segs
+                   if fn is None or (fn in fns and (with_theorems or kind == "CHECK")
+                                     and (var is None or var == variants.get(fn))))
+
+
+def template_variants(segs):
+    """fn -> the variants its THEOREM blocks are written for (only functions that have such blocks)."""
+    out = {}
+    for fn, kind, _, var in segs:
+        if fn and kind == "THEOREM" and var is not None:
+            out.setdefault(fn, set()).add(var)
+    return out
 
 
 def coqc(path, coq_dir, workdir):
@@ -4271,12 +4708,12 @@ def all_closed(stdout, text):
         and "Axioms:" not in stdout
 
 
-def find_witness(segs, fn, coq_dir, workdir):
+def find_witness(segs, fn, coq_dir, workdir, variants=None):
     """Evaluate wit_<fn> (CHECK block of the template) with vm_compute in a file of its own.
     -> dict describing the first differing input, or None (they agree on the whole family, or the
     evaluation itself failed)."""
     path = os.path.join(workdir, "HandlerDiag_%s.v" % fn)
-    write(path, assemble(segs, [fn], with_theorems=False)
+    write(path, assemble(segs, [fn], with_theorems=False, variants=variants)
           + "\nFrom Coq Require Import String.\nLocal Open Scope string_scope.\n"
             "Eval vm_compute in wit_%s.\n" % fn)
     ok, out, _ = coqc(path, coq_dir, workdir)
@@ -4346,11 +4783,16 @@ def run_handler_tie(repo_src_dir, workdir, coq_dir, template_path=None, tie_src_
     shutil.copyfile(os.path.join(tie_src_dir, LIB_NAME), lib)
     with open(template_path) as f:
         segs = parse_template(f.read())
-    known = {fn for fn, _, _ in segs if fn}
+    known = {fn for fn, _, _, _ in segs if fn}
     for f in translated:
         if f not in known:
             res["failed"][f] = {"witness": None, "error": "no block for this function in " + template_path}
-    todo = [f for f in translated if f in known]
+    # a loop written in a shape for which the template states no loop lemma: not a difference, and not
+    # a broken proof either -- the function is outside the supported subset
+    variants = {f: report[f].get("variant") for f in translated}
+    other_shape = {f: have for f, have in template_variants(segs).items()
+                   if f in translated and variants.get(f) not in have}
+    todo = [f for f in translated if f in known and f not in other_shape]
 
     ok, _, tail = coqc(lib, coq_dir, workdir)
     if not ok:
@@ -4359,12 +4801,28 @@ def run_handler_tie(repo_src_dir, workdir, coq_dir, template_path=None, tie_src_
     if not ok:                                        # a translator bug, not a difference
         return fail_all(todo, "generated HandlerGen.v does not compile", tail)
 
+    # (.. unless the generated function and the model DIFFER on the test family: the witness search does
+    # not depend on the shape of the loop, and a difference is a difference)
+    for f, have in other_shape.items():
+        w = find_witness(segs, f, coq_dir, workdir, variants)
+        if w is not None:
+            res["failed"][f] = {"witness": w, "coqc": "(no loop lemma for the shape %s; the witness was "
+                                "found by evaluation)" % variants.get(f)}
+            continue
+        translated.remove(f)
+        res["lines"].pop(f, None)
+        res["auxiliary"].pop(f, None)
+        res["unsupported"][f] = (
+            "the loop is translated (%s: the kinds of the locals it carries from one iteration to the "
+            "next) and agrees with the model on the whole test family, but %s states its loop lemma "
+            "only for: %s" % (variants.get(f), TEMPLATE_NAME, ", ".join(sorted(have))))
+
     # HandlerTie.v = the template restricted to the translated functions (kept for the reader).  It is
     # COMPILED IN PARTS, in parallel: the functions are dealt into a few files HandlerTie_partK.v
     # (each with the common text); a part that is accepted proves all its functions.
     from concurrent.futures import ThreadPoolExecutor
     tie = res["files"]["tie"]
-    write(tie, assemble(segs, todo))
+    write(tie, assemble(segs, todo, variants=variants))
     cpus = os.cpu_count() or 1
     weight = {"set_cmd_state": 8, "get_cmd_state": 2,          # the exhaustive sweeps
               "format_info_type": 6, "update_command": 3, "search_command": 2,
@@ -4382,7 +4840,7 @@ def run_handler_tie(repo_src_dir, workdir, coq_dir, template_path=None, tie_src_
 
     def check_part(k):
         path = os.path.join(workdir, "HandlerTie_part%d.v" % k)
-        text1 = assemble(segs, parts[k])
+        text1 = assemble(segs, parts[k], variants=variants)
         write(path, text1)
         ok1, out1, _ = coqc(path, coq_dir, workdir)
         return ok1 and all_closed(out1, text1)
@@ -4390,12 +4848,12 @@ def run_handler_tie(repo_src_dir, workdir, coq_dir, template_path=None, tie_src_
     # A part that is refused: every function of it is checked on its own, to attribute the failure.
     def check_one(f):
         path = os.path.join(workdir, "HandlerTie_%s.v" % f)
-        text1 = assemble(segs, [f])
+        text1 = assemble(segs, [f], variants=variants)
         write(path, text1)
         ok1, out1, tail1 = coqc(path, coq_dir, workdir)
         if ok1 and all_closed(out1, text1):
             return f, None
-        w = find_witness(segs, f, coq_dir, workdir)
+        w = find_witness(segs, f, coq_dir, workdir, variants)
         return f, {"witness": w,
                    "coqc": tail1 if not ok1 else "Print Assumptions not closed: " + out1[-400:]}
 
